@@ -331,6 +331,7 @@ pub(crate) fn verif_escape(kind: &str, s: &str) -> Option<String> {
         "fish_string_comma" => Some(escape_string(s, true)),
         "fish_help" => Some(escape_help(&builder::StyledStr::from(s.to_owned()))),
         "fish_name" => Some(escape_name(s)),
+        "fish_double_quoted" => Some(escape_double_quoted(s)),
         _ => None,
     }
 }
